@@ -16,7 +16,7 @@
    Time as in UdpExchange: a would-block costs 2 ticks, deadlines are odd, 0 = none. *)
 EXTENDS ReplyVocab, TLC
 
-CONSTANTS Cases,      \* configurations: [api, qlen, msg, L, pad, v, extra, it, deadline]
+CONSTANTS Cases,      \* configurations: [api, qlen, msg, L, pad, v, extra, it, deadline, tz]
           MaxBlocks
 
 VARIABLES cfg,
@@ -31,7 +31,7 @@ VARIABLES cfg,
 vars == <<cfg, phase, sent, need, got, buf, pos, now, nblocks, result>>
 
 CaseType == [api : {"send", "recv", "tcp"}, qlen : Nat, msg : ReplyType, L : Nat, pad : Nat, v : Nat,
-             extra : Nat, it : BOOLEAN, deadline : Nat]
+             extra : Nat, it : BOOLEAN, deadline : Nat, tz : {"-", "int0", "float0", "tiny"}]
 
 FrameQ == 2 + cfg.qlen
 StreamLen == 2 + cfg.L + cfg.extra
@@ -45,7 +45,10 @@ Range(a, n) == [i \in 1..n |-> a + i]      \* positions a+1 .. a+n
 MsgOK == ParsesWith(cfg.msg, cfg.it) /\ (cfg.api = "tcp" => RespondsToQuery(cfg.msg))
 
 Active == phase \in {"send", "len", "body"}
-Expiring(dt) == cfg.deadline # 0 /\ now + dt > cfg.deadline
+\* tz as in UdpExchange: with deadline = 0, "-" = no timeout, else a zero/tiny timeout = deadline at tick 0
+HasDeadline == cfg.deadline # 0 \/ cfg.tz # "-"
+ZeroTimeouts(S) == {[c EXCEPT !.tz = z] : c \in {x \in S : x.deadline = 0}, z \in {"int0", "float0", "tiny"}}
+Expiring(dt) == HasDeadline /\ now + dt > cfg.deadline
 
 Init == /\ cfg \in Cases
         /\ phase = IF cfg.api = "recv" THEN "len" ELSE "send"
@@ -53,7 +56,7 @@ Init == /\ cfg \in Cases
         /\ now = 0 /\ nblocks = 0 /\ result = "-"
 
 \* the socket takes the next n octets of what is offered
-Accept(n) ==
+Take(n) ==
     /\ phase = "send" /\ n \in 1..(FrameQ - Len(sent))
     /\ sent' = sent \o Range(Len(sent), n)
     /\ IF Len(sent) + n < FrameQ THEN UNCHANGED <<phase, result>>
@@ -89,11 +92,11 @@ Block == /\ Active /\ nblocks < MaxBlocks
          /\ UNCHANGED <<cfg, sent, need, got, buf, pos, result>>
 
 Silence == /\ Active
-           /\ IF cfg.deadline = 0 THEN phase' = "hang" /\ now' = now
+           /\ IF ~HasDeadline THEN phase' = "hang" /\ now' = now
                                   ELSE phase' = "timeout" /\ now' = cfg.deadline
            /\ UNCHANGED <<cfg, sent, need, got, buf, pos, nblocks, result>>
 
-Next == \/ \E n \in 1..(2 + cfg.qlen) : Accept(n)
+Next == \/ \E n \in 1..(2 + cfg.qlen) : Take(n)
         \/ \E n \in 1..(2 + cfg.L + cfg.extra) : Chunk(n)
         \/ Eof \/ Block \/ Silence
 
@@ -123,9 +126,9 @@ NeverShort ==
 \* an early end of stream is an error; an expired deadline is a timeout at the deadline
 EofIsError == phase = "eof" => result = "raise" /\ pos < 2 + cfg.L
 DeadlineRespected ==
-    /\ (cfg.deadline # 0 => now <= cfg.deadline)
-    /\ (phase = "timeout" => cfg.deadline # 0 /\ now = cfg.deadline /\ result = "-")
-    /\ (phase = "hang" => cfg.deadline = 0 /\ result = "-")
+    /\ (HasDeadline => now <= cfg.deadline)
+    /\ (phase = "timeout" => HasDeadline /\ now = cfg.deadline /\ result = "-")
+    /\ (phase = "hang" => ~HasDeadline /\ result = "-")
 NeverOverRead == pos <= 2 + cfg.L
 
 EndIsFinal == [][ ~Active => UNCHANGED vars ]_vars
